@@ -5,28 +5,32 @@ import os, vlib
 def run(ck):
     q = ck.tier == "quick"
     vlib.clean(ck.wd)
-    ck.rule = ("leg A: complete reachable state graph of Handles (handle id -> vector / key-value map / set; ids never reused) over 2 handle slots "
-               "(thorough 3), collection size <=2, values {u, v, ''}, ~200 operations per state (every listed command x live / released / never-"
+    ck.rule = ("leg A: complete reachable state graph of Handles (handle id -> vector / key-value map / set; ids never reused) over 2 handle slots, collection size <=2 "
+               "(thorough adds 3 slots with size <=1), values {u, @h1 (the handle text of h1 as a value), ''}, ~200 operations per state (every listed command x live / released / never-"
                "issued / wrong-kind handles x indexes 0,1,2,3,non-numeric): FailedOpChangesNothing, IdsNeverReused; leg B: per-transition replay on "
                "the real SDK - after every step every collection ever created is re-read through the public commands (length/get, keys/get, "
                "set_to_array, is_array/is_map/is_set) and the whole table compared; quick replays a rotating 1/10 of each state's transitions; "
                "leg C: random histories (up to 40 handles, Unicode / empty / handle-looking values, use after release, kind confusion) validated "
                "by TLC. distinct_nontrivial = distinct transitions replayed + recorded steps")
-    cfg = "C12_A.cfg" if q else "C12_A3.cfg"
-    a = vlib.tlc("C12_MC", cfg, ck.wd, workers=8, timeout=5000, xmx="16g")
-    ck.add_tlc(a, "A: %s (complete state graph)" % cfg)
-    every = 10 if q else 1
-    s = vlib.vh_json(["c12-replay", a.out_path, every], timeout=20000)
-    ck.traces += s["transitions"]; ck.evaluations += s["transitions"] + s["states"]; ck.distinct += s["transitions"]
-    for b in s["bad"]:
-        op = b.get("op", {})
-        ck.violation("handles:%s:%s%s" % (b["kind"], op.get("cmd", "-"), ":panic" if "PANIC" in str(b["why"]) else ""),
-                     "after %s, %s: %s" % ([o["cmd"] for o in b["path"]], op, str(b["why"])[:400]), b)
-    for x in s["samples"]:
-        ck.sample(x)
-    ck.notes["legB"] = {"states": s["states"], "transitions_replayed": s["transitions"], "fraction_of_transitions": "1/%d" % every}
-    os.remove(a.out_path)
-    ck.cmds.append("tlc -config %s C12_MC.tla; vh c12-replay; vh c12-record; tlc C12_Trace.tla" % cfg)
+    # quick: 2 handle slots, collections up to 2 elements, a rotating tenth of every state's transitions;
+    # thorough: the same graph with every transition, then 3 handle slots with collections up to 1 element, every third transition
+    # (3 slots x 2 elements is 158 000 states x ~250 operations: eleven hours of replay and a 12 GB case file)
+    ck.notes["legB"] = []
+    for cfg, every in ([("C12_A.cfg", 10)] if q else [("C12_A.cfg", 1), ("C12_A3s.cfg", 3)]):
+        a = vlib.tlc("C12_MC", cfg, ck.wd, workers=8, timeout=5000, xmx="16g", tag=cfg[:-4])
+        ck.add_tlc(a, "A: %s (complete state graph)" % cfg)
+        s = vlib.vh_json(["c12-replay", a.out_path, every], timeout=20000)
+        ck.traces += s["transitions"]; ck.evaluations += s["transitions"] + s["states"]; ck.distinct += s["transitions"]
+        for b in s["bad"]:
+            op = b.get("op", {})
+            ck.violation("handles:%s:%s%s" % (b["kind"], op.get("cmd", "-"), ":panic" if "PANIC" in str(b["why"]) else ""),
+                         "after %s, %s: %s" % ([o["cmd"] for o in b["path"]], op, str(b["why"])[:400]), b)
+        for x in s["samples"]:
+            ck.sample(x)
+        ck.notes["legB"].append({"cfg": cfg, "states": s["states"], "transitions_replayed": s["transitions"], "fraction_of_transitions": "1/%d" % every})
+        os.remove(a.out_path)
+        ck.cmds.append("tlc -config %s C12_MC.tla; vh c12-replay" % cfg)
+    ck.cmds.append("vh c12-record; tlc C12_Trace.tla")
     nh, ln = (40, 150) if q else (800, 400)
     tr = os.path.join(ck.wd, "c12_trace.ndjson")
     s = vlib.vh_json(["c12-record", ck.seed, nh, ln, tr], timeout=10000)
